@@ -69,6 +69,7 @@ type world struct {
 	events []string
 	hidx   int
 	rng    *rand.Rand
+	nReloc int
 }
 
 func (w *world) logf(f string, a ...any) {
@@ -117,6 +118,39 @@ func (w *world) put(i int, content []byte) {
 	w.touch(rel(h, "d"), content)
 	w.cur[i] = content
 }
+
+// relocate moves the files of entry i somewhere else and leaves symbolic links in their place (what a
+// deduplication or space-saving tool does). Nothing changes for the cache: the entry is used when it is
+// looked up (which refreshes the file the link points to) and its age is that file's, not the link's.
+func (w *world) relocate(i int) {
+	c, ok := w.cur[i]
+	if !ok {
+		return
+	}
+	h := sha256.Sum256(c)
+	side := w.dir + "-elsewhere"
+	os.MkdirAll(side, 0o777)
+	for _, relp := range []string{rel(w.ids[i], "a"), rel(h, "d")} {
+		p := filepath.Join(w.dir, relp)
+		st, err := os.Lstat(p)
+		if err != nil || !st.Mode().IsRegular() {
+			continue
+		}
+		w.nReloc++
+		target := filepath.Join(side, fmt.Sprintf("%d-%s", w.nReloc, filepath.Base(relp)))
+		if os.Rename(p, target) != nil {
+			continue
+		}
+		if err := os.Symlink(target, p); err != nil {
+			os.Rename(target, p)
+			continue
+		}
+		atomic.AddInt64(&nRelocated, 1)
+		w.logf("relocated %s (symbolic link left in place)", relp)
+	}
+}
+
+var nRelocated int64
 
 func (w *world) lookup(i int) {
 	idx := w.files[rel(w.ids[i], "a")]
@@ -376,6 +410,7 @@ func runHistory(base string, hidx int, seed int64, hook bool) {
 	dir := filepath.Join(base, fmt.Sprintf("h%d-%v%s", hidx, hook, []string{"", "", "[ab]", " [x", "?*", "%s%d", "\\q"}[hidx%7]))
 	os.MkdirAll(dir, 0o777)
 	defer os.RemoveAll(dir)
+	defer os.RemoveAll(dir + "-elsewhere")
 	c, err := cache.Open(dir)
 	if err != nil {
 		run.Inconclusive("cache.Open: " + err.Error())
@@ -415,6 +450,9 @@ func runHistory(base string, hidx int, seed int64, hook bool) {
 				default:
 					w.lookup(i)
 				}
+				if rng.Intn(10) == 0 {
+					w.relocate(i)
+				}
 				w.advance()
 			} else {
 				// real clock: store, then age the files through their mtimes
@@ -453,7 +491,7 @@ func runHistory(base string, hidx int, seed int64, hook bool) {
 func main() {
 	vlib.Main("C13", "exploration", 10*time.Minute, func(r *vlib.Run) {
 		run = r
-		r.Rule("cache directories whose names contain pattern / format metacharacters in 4 of 7 histories; histories: 1-5 action ids, 1-3 rounds of (2-11 stores/lookups of random kinds, then Trim) with time steps drawn from a boundary-heavy set (1ns, 1h-1ns, 1h, 1h+1ns, 5d-1ns, 5d, 5d+1ns, 5d+1h-1ns, 5d+1h, 5d+1h+1ns, days, months), 19 trim.txt variants, plus a record that can be neither read nor rewritten (a non-empty directory, a dangling symbolic link) (absent, empty, garbage, now, now-23h59m59s, now-24h, now+30m, now+2h, huge, negative, ...), non-entry files 400 days old in and beside the sub-directories. Hooked clock (VerifSetNow) for exact boundaries; a second workload with the real clock and ages simulated through mtimes (margins of 10 min). Every history has its own PRNG stream; non-trivial = history with at least one Trim call.")
+		r.Rule("entry files now and then moved elsewhere with a symbolic link left in place (hooked clock); cache directories whose names contain pattern / format metacharacters in 4 of 7 histories; histories: 1-5 action ids, 1-3 rounds of (2-11 stores/lookups of random kinds, then Trim) with time steps drawn from a boundary-heavy set (1ns, 1h-1ns, 1h, 1h+1ns, 5d-1ns, 5d, 5d+1ns, 5d+1h-1ns, 5d+1h, 5d+1h+1ns, days, months), 19 trim.txt variants, plus a record that can be neither read nor rewritten (a non-empty directory, a dangling symbolic link) (absent, empty, garbage, now, now-23h59m59s, now-24h, now+30m, now+2h, huge, negative, ...), non-entry files 400 days old in and beside the sub-directories. Hooked clock (VerifSetNow) for exact boundaries; a second workload with the real clock and ages simulated through mtimes (margins of 10 min). Every history has its own PRNG stream; non-trivial = history with at least one Trim call.")
 		r.Assume("a file's last use is the latest store of it or successful lookup touching it (Get: index entry; GetBytes/GetFile/OutputFile: output file too); entries with last use in [5d, 5d+1h] are don't-care; a trim.txt up to one hour in the future may or may not suppress the trim")
 		W := runtime.NumCPU()
 		base := vlib.Scratch()
@@ -466,6 +504,7 @@ func main() {
 			runHistory(base, h, r.SubSeed(fmt.Sprintf("real-%d", h)), false)
 		})
 		r.Set("trims_ran", atomic.LoadInt64(&nRan))
+		r.Set("entry_files_relocated_behind_a_symbolic_link", atomic.LoadInt64(&nRelocated))
 		r.Set("trims_with_a_record_that_cannot_be_rewritten", atomic.LoadInt64(&nUnwritable))
 		r.Set("trims_skipped", atomic.LoadInt64(&nSkipped))
 		r.Set("entry_files_removed", atomic.LoadInt64(&nRemoved))
